@@ -103,7 +103,7 @@ impl Rt for V6 {
         }
     }
     fn domain_doc() -> &'static str {
-        "src(11 kinds: link-local, multicast, unspecified, global, loopback, EUI-derived, solicited-node, v4-mapped, ULA, site multicast, all-ones) x dst(11) x next_header(14) x payload_len {0,1,2,3,1240,65535} x hop_limit {0,1,64,255}; buffer = 40 + payload_len"
+        "src(13 kinds: link-local, multicast, unspecified, global, loopback, EUI-derived, solicited-node, v4-mapped, ULA, site multicast, all-ones, two in fe80::/10 outside fe80::/64) x dst(13) x next_header(14) x payload_len {0,1,2,3,1240,65535} x hop_limit {0,1,64,255}; buffer = 40 + payload_len"
     }
 }
 
@@ -390,7 +390,7 @@ impl Rt for Routing {
         }
     }
     fn domain_doc() -> &'static str {
-        "Type2{segments_left {0,1,64,255} x home_address(11)}; Rpl{segments_left(4) x cmpr_i {0,1,15} x cmpr_e {0,8,15} x pad {0,1,15} (4-bit fields) x address bytes of length {0,2,8,16,32}}"
+        "Type2{segments_left {0,1,64,255} x home_address(13)}; Rpl{segments_left(4) x cmpr_i {0,1,15} x cmpr_e {0,8,15} x pad {0,1,15} (4-bit fields) x address bytes of length {0,2,8,16,32}}"
     }
 }
 
